@@ -1,11 +1,327 @@
 /-
-  C07 — a fit result is self-consistent.
+  C07 — a fit result is self-consistent: function, residuals, chi-squared, correlations.
+
+  The model functions are the *generated* `Gen.fitRule` (QExPy/Generated/Fitters.lean,
+  regenerated from qexpy/fitting/utils.py: FITTERS on every run); the fit result is
+  `Fit.FitResult` (QExPy/Model/Fit.lean).
 -/
 import QExPy.Real
 import QExPy.Model.Fit
-import QExPy.Props.C03
+import QExPy.Props.C01
 
 namespace QExPy
-open Fit
+open Fit Expr
+
+/-- Horner's rule as a left fold: `((acc·x + l₀)·x + l₁)·x + …` -/
+theorem horner_foldl (env : Nat → ℝ) (x : Expr ℝ) (l : List (Expr ℝ)) (acc : Expr ℝ) :
+    eval env (l.foldl (fun a b => Expr.bin .add (Expr.bin .mul a x) b) acc)
+      = eval env acc * (eval env x) ^ l.length
+        + ∑ k ∈ Finset.range l.length,
+            eval env (l.getD k (Expr.const 0)) * (eval env x) ^ (l.length - 1 - k) := by
+  induction l generalizing acc with
+  | nil => simp
+  | cons b t ih =>
+    have hs : ∀ k, t.length + 1 - 1 - (k + 1) = t.length - 1 - k := by intro k; omega
+    rw [List.foldl_cons, ih, List.length_cons, Finset.sum_range_succ']
+    simp only [hs]
+    simp [eval, Gen.op2]
+    ring
+
+/-- **C07 (polynomial model).** For every number of coefficients, the pre-set polynomial model
+    applied to the coefficient list `cs` *in the order `numpy.polyfit` returns it* (highest
+    power first) is the polynomial `Σ_k cs_k · x^(d−k)`, `d = |cs| − 1`.  The left-hand side is
+    the generated term: it contains `cs.reverse` iff the Python source says `reversed(coeffs)`. -/
+theorem C07_poly_model (env : Nat → ℝ) (x : Expr ℝ) (cs : List (Expr ℝ)) :
+    eval env (Gen.fitRule .polynomial x cs)
+      = ∑ k ∈ Finset.range cs.length,
+          eval env (cs.getD k (Expr.const 0)) * (eval env x) ^ (cs.length - 1 - k) := by
+  cases cs with
+  | nil => simp [Gen.fitRule, Expr.reduce1, eval]
+  | cons a t =>
+    simp only [Gen.fitRule, Expr.reduce1]
+    have hs : ∀ k, t.length + 1 - 1 - (k + 1) = t.length - 1 - k := by intro k; omega
+    rw [horner_foldl, List.length_cons, Finset.sum_range_succ']
+    simp only [hs]
+    simp
+    ring
+
+/-- **C07 (linear model).** `fit_function(x) = a·x + b`, slope first. -/
+theorem C07_lin (env : Nat → ℝ) (x a b : Expr ℝ) :
+    eval env (Gen.fitRule .linear x [a, b]) = eval env a * eval env x + eval env b := by
+  simp [Gen.fitRule, Expr.arg, eval, Gen.op2]
+
+/-- **C07 (quadratic model).** `a·x² + b·x + c`, highest power first. -/
+theorem C07_quad (env : Nat → ℝ) (x a b c : Expr ℝ) :
+    eval env (Gen.fitRule .quadratic x [a, b, c])
+      = eval env a * eval env x ^ 2 + eval env b * eval env x + eval env c := by
+  simp [Gen.fitRule, Expr.arg, eval, Gen.op2]
+
+/-- **C07 (exponential model).** `c·exp(−a·x)` with parameters (amplitude, decay constant). -/
+theorem C07_expo (env : Nat → ℝ) (x c a : Expr ℝ) :
+    eval env (Gen.fitRule .exponential x [c, a])
+      = eval env c * Real.exp (-(eval env a * eval env x)) := by
+  simp [Gen.fitRule, Expr.arg, eval, Gen.op2, Gen.op1]
+
+/-- **C07 (Gaussian model).** `norm/sqrt(2π·std²) · exp(−(x−mean)²/(2·std²))` with parameters
+    (normalization, mean, std) in this order. -/
+theorem C07_gauss (env : Nat → ℝ) (x n mu sd : Expr ℝ) :
+    eval env (Gen.fitRule .gaussian x [n, mu, sd])
+      = eval env n / Real.sqrt (2 * Real.pi * eval env sd ^ 2)
+        * Real.exp (-(eval env x - eval env mu) ^ 2 / (2 * eval env sd ^ 2)) := by
+  simp [Gen.fitRule, Expr.arg, eval, Gen.op2, Gen.op1]
+  left
+  by_cases h : eval env sd = 0
+  · simp [h]
+  · field_simp
+
+/-- non-vacuity / the documented example: coefficients `[3, 1]` (as `polyfit` returns them for
+    y = 3x + 1) evaluate to 7 at x = 2 -/
+example : eval (fun _ => (0:ℝ)) (Gen.fitRule .polynomial (Expr.const 2) [Expr.const 3, Expr.const 1])
+    = 7 := by
+  rw [C07_poly_model]
+  simp [Finset.sum_range_succ, eval]
+  norm_num
+
+/-! ### the fit result -/
+
+theorem eval_vars_getD (env : Nat → ℝ) (m k : Nat) (hk : k < m) :
+    eval env (((List.range m).map Expr.var).getD k (Expr.const 0)) = env k := by
+  simp [List.getD, hk, eval]
+
+/-- **C07.** `fit_function(x)` (central value) is the fitted model evaluated at `x` with the
+    returned parameters. -/
+theorem C07_fit_value (r : FitResult ℝ) (x : ℝ) :
+    (r.fitFunction x).1 = eval r.params (r.f (Expr.const x) ((List.range r.m).map Expr.var)) :=
+  rfl
+
+/-- **C07.** For the pre-set polynomial model with `m` coefficients (degree `m−1`, every
+    degree): `fit_function(x) = Σ_k p_k · x^(m−1−k)`, `p` in the order `polyfit` returns. -/
+theorem C07_fit_value_poly (m : Nat) (params : Nat → ℝ) (cov : Nat → Nat → ℝ) (x : ℝ) :
+    ((⟨m, Gen.fitRule .polynomial, params, cov⟩ : FitResult ℝ).fitFunction x).1
+      = ∑ k ∈ Finset.range m, params k * x ^ (m - 1 - k) := by
+  rw [C07_fit_value, C07_poly_model]
+  simp only [List.length_map, List.length_range]
+  apply Finset.sum_congr rfl
+  intro k hk
+  rw [eval_vars_getD _ _ _ (Finset.mem_range.mp hk)]
+  simp [eval]
+
+/-- **C07.** residual of a data point = `y − fit_function(x)`. -/
+theorem C07_residual_def (r : FitResult ℝ) (pt : Pt ℝ) :
+    r.residual pt = pt.y - (r.fitFunction pt.x).1 := rfl
+
+/-- **C07.** chi-squared is the sum of `(residual/σ_y)²` over the points with `σ_y ≠ 0`. -/
+theorem C07_chi2_def (r : FitResult ℝ) (d : List (Pt ℝ)) :
+    r.chi2 d = ((d.filter fun pt => decide (pt.sy ≠ 0)).map fun pt =>
+      ((pt.y - (r.fitFunction pt.x).1) / pt.sy) ^ 2).sum := by
+  unfold FitResult.chi2
+  rw [numSum_eq]
+  congr 1
+  have hf : (fun pt : Pt ℝ => !Num.isZero pt.sy) = fun pt => decide (pt.sy ≠ 0) := by
+    funext pt; simp
+  rw [hf]
+  apply List.map_congr_left
+  intro pt _
+  simp [Num.sq, FitResult.residual, sq]
+
+/-- **C07.** As uncertainties are never negative, "σ_y ≠ 0" is "σ_y > 0". -/
+theorem C07_chi2_points (d : List (Pt ℝ)) (h : ∀ pt ∈ d, 0 ≤ pt.sy) :
+    (d.filter fun pt => decide (pt.sy ≠ 0)) = d.filter fun pt => decide (0 < pt.sy) := by
+  apply List.filter_congr
+  intro pt hpt
+  have := h pt hpt
+  simp only [decide_eq_decide]
+  constructor
+  · intro hne; exact lt_of_le_of_ne this (Ne.symm hne)
+  · intro hlt; exact ne_of_gt hlt
+
+/-- **C07.** chi-squared is non-negative. -/
+theorem C07_chi2_nonneg (r : FitResult ℝ) (d : List (Pt ℝ)) : 0 ≤ r.chi2 d := by
+  rw [C07_chi2_def]
+  apply List.sum_nonneg
+  intro v hv
+  obtain ⟨pt, _, rfl⟩ := List.mem_map.mp hv
+  positivity
+
+/-! ### one covariance matrix -/
+
+/-- **C07.** The squared parameter uncertainty is the diagonal of the covariance. -/
+theorem C07_perr_sq (r : FitResult ℝ) (k : Nat) (h : 0 ≤ r.cov k k) : r.perr k ^ 2 = r.cov k k := by
+  simp [FitResult.perr, Real.sq_sqrt h]
+
+/-- **C07.** The reported correlation matrix and the correlations registered between the
+    parameter objects are the same function of the one covariance matrix. -/
+theorem C07_corr_registered (r : FitResult ℝ) (i j : Nat) : r.corrMatrix i j = r.regCorr i j := rfl
+
+/-- **C07.** unit diagonal of the correlation matrix -/
+theorem C07_corr_diag (r : FitResult ℝ) (k : Nat) (h : 0 < r.cov k k) : r.corrMatrix k k = 1 := by
+  simp only [FitResult.corrMatrix, num_div, num_mul, num_sqrt]
+  rw [Real.mul_self_sqrt (le_of_lt h)]
+  exact div_self (ne_of_gt h)
+
+/-- **C07.** the correlation matrix is symmetric when the covariance is -/
+theorem C07_corr_symm (r : FitResult ℝ) (hsym : ∀ i j, r.cov i j = r.cov j i) (i j : Nat) :
+    r.corrMatrix i j = r.corrMatrix j i := by
+  simp only [FitResult.corrMatrix, num_div, num_mul, num_sqrt]
+  rw [hsym i j, mul_comm]
+
+/-- **C07 (covariance round trip).** The covariance the derivative method rebuilds from the
+    parameter uncertainties `σ_i = sqrt(cov_ii)` and the registered correlations
+    `ρ_ij = cov_ij/(σ_i σ_j)` is the fit covariance again. -/
+theorem C07_cov_roundtrip (r : FitResult ℝ) (i j : Nat) (hi : 0 < r.cov i i)
+    (hj : 0 < r.cov j j) : Cov r.perr r.regCorr i j = r.cov i j := by
+  unfold Cov
+  by_cases h : i = j
+  · subst h
+    simp [FitResult.perr, Real.sq_sqrt (le_of_lt hi)]
+  · simp only [h, if_false, FitResult.regCorr, FitResult.perr, num_div, num_mul, num_sqrt]
+    have h1 : Real.sqrt (r.cov i i) ≠ 0 := ne_of_gt (Real.sqrt_pos.mpr hi)
+    have h2 : Real.sqrt (r.cov j j) ≠ 0 := ne_of_gt (Real.sqrt_pos.mpr hj)
+    field_simp
+
+theorem quadForm_congr (g : Nat → ℝ) (C C' : Nat → Nat → ℝ) (S : List Nat)
+    (h : ∀ i ∈ S, ∀ j ∈ S, C i j = C' i j) : quadForm g C S = quadForm g C' S := by
+  unfold quadForm
+  congr 1
+  apply List.map_congr_left
+  intro i hi
+  congr 1
+  apply List.map_congr_left
+  intro j hj
+  rw [h i hi j hj]
+
+theorem quadForm_finset (g : Nat → ℝ) (C : Nat → Nat → ℝ) (S : List Nat) (hS : S.Nodup) :
+    quadForm g C S = ∑ i ∈ S.toFinset, ∑ j ∈ S.toFinset, g i * g j * C i j := by
+  unfold quadForm
+  rw [List.sum_toFinset _ hS]
+  congr 1
+  apply List.map_congr_left
+  intro i _
+  rw [List.sum_toFinset _ hS]
+
+/-- adding variables on which the formula does not depend does not change the quadratic form -/
+theorem quadForm_extend (g : Nat → ℝ) (C : Nat → Nat → ℝ) (S T : List Nat) (hS : S.Nodup)
+    (hT : T.Nodup) (hsub : ∀ i ∈ S, i ∈ T) (hz : ∀ i ∈ T, i ∉ S → g i = 0) :
+    quadForm g C S = quadForm g C T := by
+  rw [quadForm_finset g C S hS, quadForm_finset g C T hT]
+  have hsub' : S.toFinset ⊆ T.toFinset := by
+    intro i hi; exact List.mem_toFinset.mpr (hsub i (List.mem_toFinset.mp hi))
+  have hz' : ∀ i ∈ T.toFinset, i ∉ S.toFinset → g i = 0 := by
+    intro i hi hni
+    exact hz i (List.mem_toFinset.mp hi) (fun h => hni (List.mem_toFinset.mpr h))
+  rw [← Finset.sum_subset hsub' (fun i hi hni => by simp [hz' i hi hni])]
+  apply Finset.sum_congr rfl
+  intro i _
+  exact Finset.sum_subset hsub' (fun j hj hnj => by simp [hz' j hj hnj])
+
+/-- **C07 (uncertainty band).** The uncertainty of `fit_function(x)` is `sqrt(gᵀ Cov g)` with
+    `g_k = ∂f/∂p_k` (`FitResult.grad`, the exact partial derivative by `C03_diff_correct`) and
+    `Cov` the fit covariance — the parameter uncertainties and the registered correlations
+    recombine to exactly that matrix (`C07_cov_roundtrip`).  Sum over the parameters the
+    formula depends on. -/
+theorem C07_band (r : FitResult ℝ) (x : ℝ) (hsym : ∀ i j, r.cov i j = r.cov j i)
+    (hpos : ∀ k ∈ sources (r.funExpr (Expr.const x)), 0 < r.cov k k) :
+    (r.fitFunction x).2
+      = Real.sqrt (quadForm (r.grad x) r.cov (sources (r.funExpr (Expr.const x)))) := by
+  unfold FitResult.fitFunction
+  have hρ : ∀ i j, r.regCorr i j = r.regCorr j i := by
+    intro i j
+    simp only [FitResult.regCorr, num_div, num_mul]
+    rw [hsym i j, mul_comm]
+  rw [C01_error _ _ _ hρ]
+  congr 1
+  exact quadForm_congr _ _ _ _ (fun i hi j hj => C07_cov_roundtrip r i j (hpos i hi) (hpos j hj))
+
+/-- **C07 (uncertainty band, all parameters).** With `m` parameters of positive variance and a
+    model formula in those parameters only: `error² = Σ_{i<m} Σ_{j<m} g_i g_j Cov_ij`. -/
+theorem C07_band_all (r : FitResult ℝ) (x : ℝ) (hsym : ∀ i j, r.cov i j = r.cov j i)
+    (hpos : ∀ k < r.m, 0 < r.cov k k)
+    (hsrc : ∀ k ∈ sources (r.funExpr (Expr.const x)), k < r.m)
+    (hpsd : 0 ≤ ∑ i ∈ Finset.range r.m, ∑ j ∈ Finset.range r.m, r.grad x i * r.grad x j * r.cov i j) :
+    (r.fitFunction x).2 ^ 2
+      = ∑ i ∈ Finset.range r.m, ∑ j ∈ Finset.range r.m, r.grad x i * r.grad x j * r.cov i j := by
+  rw [C07_band r x hsym (fun k hk => hpos k (hsrc k hk))]
+  have hext := quadForm_extend (r.grad x) r.cov (sources (r.funExpr (Expr.const x)))
+    (List.range r.m) (sources_nodup _) List.nodup_range
+    (fun i hi => List.mem_range.mpr (hsrc i hi))
+    (fun i _ hni => C03_not_mem r.params i _ hni)
+  rw [hext, quadForm_finset _ _ _ List.nodup_range, List.toFinset_range]
+  exact Real.sq_sqrt hpsd
+
+/-- **C07.** `g_k` is the exact partial derivative of the model with respect to parameter `k`. -/
+theorem C07_grad_exact (r : FitResult ℝ) (x : ℝ) (k : Nat)
+    (h : InDom r.params (r.funExpr (Expr.const x))) :
+    HasDerivAt (fun t => eval (Function.update r.params k t) (r.funExpr (Expr.const x)))
+      (r.grad x k) (r.params k) :=
+  C03_diff_correct r.params k _ h
+
+theorem mem_sources_bin {o : Op2} {a b : Expr ℝ} {k : Nat} :
+    k ∈ sources (Expr.bin o a b) ↔ k ∈ sources a ∨ k ∈ sources b := by
+  simp [sources, List.mem_eraseDups]
+
+theorem sources_horner (x : Expr ℝ) (l : List (Expr ℝ)) (acc : Expr ℝ) (k : Nat)
+    (hk : k ∈ sources (l.foldl (fun a b => Expr.bin .add (Expr.bin .mul a x) b) acc)) :
+    k ∈ sources acc ∨ k ∈ sources x ∨ ∃ b ∈ l, k ∈ sources b := by
+  induction l generalizing acc with
+  | nil => exact Or.inl hk
+  | cons b t ih =>
+    rw [List.foldl_cons] at hk
+    rcases ih _ hk with h | h | ⟨c, hc, h⟩
+    · rcases mem_sources_bin.mp h with h | h
+      · rcases mem_sources_bin.mp h with h | h
+        · exact Or.inl h
+        · exact Or.inr (Or.inl h)
+      · exact Or.inr (Or.inr ⟨b, List.mem_cons_self, h⟩)
+    · exact Or.inr (Or.inl h)
+    · exact Or.inr (Or.inr ⟨c, List.mem_cons_of_mem _ hc, h⟩)
+
+/-- the polynomial fit function depends on the parameter variables only -/
+theorem sources_poly (m : Nat) (params : Nat → ℝ) (cov : Nat → Nat → ℝ) (x : ℝ) :
+    ∀ k ∈ sources ((⟨m, Gen.fitRule .polynomial, params, cov⟩ : FitResult ℝ).funExpr (Expr.const x)),
+      k < m := by
+  intro k hk
+  simp only [FitResult.funExpr, Gen.fitRule, Expr.reduce1] at hk
+  cases m with
+  | zero => simp [sources] at hk
+  | succ n =>
+    rw [List.range_succ_eq_map, List.map_cons] at hk
+    rcases sources_horner _ _ _ k hk with h | h | ⟨b, hb, h⟩
+    · simp [sources] at h; omega
+    · simp [sources] at h
+    · obtain ⟨j, hj, rfl⟩ := List.mem_map.mp hb
+      simp [sources] at h
+      subst h
+      obtain ⟨i, hi, rfl⟩ := List.mem_map.mp hj
+      have := List.mem_range.mp hi
+      omega
+
+/-- **C07 (uncertainty band of a polynomial fit, every degree).**
+    `fit_function(x).error² = Σ_{i,j<m} g_i g_j Cov_ij`. -/
+theorem C07_band_poly (m : Nat) (params : Nat → ℝ) (cov : Nat → Nat → ℝ) (x : ℝ)
+    (hsym : ∀ i j, cov i j = cov j i) (hpos : ∀ k < m, 0 < cov k k) :
+    let r : FitResult ℝ := ⟨m, Gen.fitRule .polynomial, params, cov⟩
+    0 ≤ (∑ i ∈ Finset.range m, ∑ j ∈ Finset.range m, r.grad x i * r.grad x j * cov i j) →
+    (r.fitFunction x).2 ^ 2
+      = ∑ i ∈ Finset.range m, ∑ j ∈ Finset.range m, r.grad x i * r.grad x j * cov i j := by
+  intro r hpsd
+  exact C07_band_all r x hsym hpos (sources_poly m params cov x) hpsd
+
+/-- non-vacuity of `C07_band_all`: a straight-line fit with slope 3 ± 1, intercept 1 ± 1,
+    uncorrelated -/
+example (x : ℝ) :
+    let r : FitResult ℝ := ⟨2, Gen.fitRule .linear, fun k => if k = 0 then 3 else 1,
+      fun i j => if i = j then 1 else 0⟩
+    (∀ i j, r.cov i j = r.cov j i) ∧ (∀ k < r.m, 0 < r.cov k k) ∧
+    (∀ k ∈ sources (r.funExpr (Expr.const x)), k < r.m) ∧
+    0 ≤ ∑ i ∈ Finset.range r.m, ∑ j ∈ Finset.range r.m, r.grad x i * r.grad x j * r.cov i j := by
+  refine ⟨?_, ?_, ?_, ?_⟩
+  · intro i j; by_cases h : i = j <;> simp [h, eq_comm]
+  · intro k _; simp
+  · simp [FitResult.funExpr, Gen.fitRule, Expr.arg, sources, List.range_succ, List.eraseDups_cons]
+  · apply Finset.sum_nonneg; intro i _
+    apply Finset.sum_nonneg; intro j _
+    by_cases h : i = j
+    · subst h; simp; exact mul_self_nonneg _
+    · simp [h]
 
 end QExPy
